@@ -14,6 +14,13 @@ use crate::{
 pub struct Error(pub(crate) Message);
 
 impl Error {
+    #[doc(hidden)]
+    /// Output already finalized by an inner `OptionParser` (help, version or its own error)
+    #[must_use]
+    pub fn is_final_output(&self) -> bool {
+        matches!(self.0, Message::ParseFailure(_))
+    }
+
     pub(crate) fn combine_with(self, other: Self) -> Self {
         Error(self.0.combine_with(other.0))
     }
